@@ -25,6 +25,9 @@ for d in sorted(glob.glob(V + "/seeded/*/")):
     pid = meta["breaks_property"]
     if checks_arg == "primary": ids = [pid]
     elif checks_arg == "all": ids = ALL
+    elif checks_arg == "group":
+        groups = [["C01","C03","C12","C13","C14","C18","C19"], ["C04","C05","C06","C07","C11","C14","C15","C16","C20"], ["C02","C08","C09","C10","C17","C20","C11"]]
+        ids = sorted({c for g in groups if pid in g for c in g} | {pid})
     else: ids = checks_arg.split(",")
     r = sh("git apply " + d + "patch.diff", "/repo")
     if r.returncode != 0:
